@@ -100,7 +100,23 @@ def bins_summary(interp, args, kwargs):
             interp.summaries["util.bins.bins"] = saved
     if one:
         return spec_bin(start, stop, off)
-    raise Unsupported("bins summary: one=False")
+    # one=False: {1} united with, per level, the bins from the start's to the stop's (contract proved by the C16
+    # cases: the branch structure below is the code's, after the two repairs)
+    from pyvc.spec import Or
+    MAXC = 2 ** 29
+    if interp.branch(start >= MAXC):
+        return MSet([1])
+    if interp.branch(stop >= MAXC):
+        stop = MAXC - 1
+    if interp.branch(Or(start < off, stop < 0)):
+        return MSet([1])
+    out = MSet([1])
+    a = start - off
+    for k in range(5):
+        lo = LEVEL_OFFSETS[k] + Div(a, WIDTHS[k])
+        hi = LEVEL_OFFSETS[k] + Div(stop, WIDTHS[k]) + 1
+        out.ranges.append((lo, hi))
+    return out
 
 
 def digest_summary(interp, args, kwargs):
